@@ -235,6 +235,8 @@ def search(ctx):
     for cap in (3, 4):
         for thr in (0.0, 1e-9):
             plan.append(("analog-bug", cap, "discarded_weight", False, thr))
+    # the rank-adaptive integrator under the other truncation rule (whatever it does with trunc_mode, the cap binds)
+    plan += [("analog-bug", 2, "relative", False, 1e-8), ("analog-bug", 3, "relative", False, 1e-6)]
     plan += [("digital", 2, "discarded_weight", True), ("analog", 3, "discarded_weight", True),
              ("analog", 3, "relative", True), ("digital", 3, "relative", True),
              # noisy runs with threshold 0: the uncapped SVD centre shifts of the dissipation sweep must still drop the null directions
